@@ -109,6 +109,22 @@ def h_spell(op, a, b, itext, unit, period, consts, mode, N):
     return body
 
 
+def h_pair(txt, f, period, unit, mode, N):
+    """one specification holding two bounded operators whose bounds have the SAME numbers but different units (so different durations):
+    each must keep its own window; f is the sample-level formula"""
+    f = T(f)
+    vs = sorted(variables(f))
+
+    def body(env):
+        A = env.A
+        s = dt.make_spec('offline' if mode == 'offline' else 'online', 'out = ' + txt, vs, unit=unit, period=tuple(period) + (0.1,))
+        w = dt.trace(env, vs, N)
+        got = [p[1] for p in dt.offline(s, w, N)] if mode == 'offline' else dt.online(s, w, N)
+        env.observe('out', got)
+        return dt.eq_list(A, 'pair', got, rho(A, f, w, N))
+    return body
+
+
 def h_nonmultiple(op, itext, unit, period, mode):
     vs = ['x', 'y'] if op in ('since_t', 'until_t', 'unless_t') else ['x']
 
@@ -188,6 +204,19 @@ def obligations(tier, rng):
                     continue
                 out.append(ob('C08', 'nonmultiple', 'nonmultiple/%s/%s%s/unit=%s/P=%s%s' % (mode, op, itext, unit, period[0], period[1]),
                               op=op, itext=itext, unit=unit, period=list(period), mode=mode, validate=0))
+    # same numbers, different units, inside ONE specification
+    for op, fmt in [('once_t', 'once%s(x)'), ('historically_t', 'historically%s(x)'), ('eventually_t', 'eventually%s(x)'), ('always_t', 'always%s(x)'),
+                    ('since_t', '(x) since%s (y)'), ('until_t', '(x) until%s (y)')]:
+        for (i1, i2, b1, b2, per, unit) in [('[0:2s]', '[0:2ms]', (0, 2000), (0, 2), (1, 'ms'), None), ('[1:3ms]', '[1:3us]', (1000, 3000), (1, 3), (1, 'us'), 'ms'),
+                                            ('[0s:2s]', '[0:2]', (0, 2000), (0, 2), (1, 'ms'), 'ms'), ('[1ms:2ms]', '[1s:2s]', (1, 2), (1000, 2000), (1, 'ms'), None)]:
+            mk = (lambda b: (op, X, Y, b[0], b[1])) if op in ('since_t', 'until_t') else (lambda b: (op, X, b[0], b[1]))
+            for conn, ctxt in (('sub', '(%s) - (%s)'), ('and', '(%s) and (%s)')):
+                f = (conn, mk(b1), mk(b2))
+                txt = ctxt % (fmt % i1, fmt % i2)
+                for mode in ['offline'] + (['online'] if op in ('once_t', 'historically_t', 'since_t') else []):
+                    if quick and conn == 'and' and mode == 'offline':
+                        continue
+                    out.append(ob('C08', 'pair', 'pair/%s/%s/P=%d%s/unit=%s' % (mode, txt, per[0], per[1], unit), txt=txt, f=f, period=list(per), unit=unit, mode=mode, N=5))
     # dense time: consistent renaming of units
     for op in ('once_t', 'historically_t', 'eventually_t', 'always_t') + (() if quick else ('since_t', 'until_t')):
         for a, b in [(1, 2)] if quick else [(0, 1), (1, 2)]:
